@@ -1,15 +1,76 @@
 #!/usr/bin/env python3
-"""one line per seeded change: validity and which checks raised an alarm (reads seeded/*/eval*.json)"""
-import glob, json, os, sys
+"""one line per seeded change: validity and which checks raised an alarm (reads seeded/*/eval.json)
+
+  tools/seedsummary.py          plain lines
+  tools/seedsummary.py --md     writes seeded/README.md (table: seed, property, mechanism, needs, verdict per check)"""
+import glob
+import json
+import os
+import sys
+
 HERE = os.path.dirname(os.path.dirname(os.path.abspath(__file__)))
-for d in sorted(glob.glob(os.path.join(HERE, 'seeded', '*'))):
-    if not os.path.isdir(d):
-        continue
-    p = os.path.join(d, 'eval.json')
-    try:
-        e = json.load(open(p))
-    except Exception:
-        print(os.path.basename(d), '(no evaluation)'); continue
-    ok = e.get('demo_clean_exit') == 0 and e.get('demo_changed_exit') not in (0, None) and e.get('tests_ok')
-    st = 'valid' if ok else 'INVALID(applies=%s clean=%s changed=%s tests=%s)' % (e.get('patch_applies'), e.get('demo_clean_exit'), e.get('demo_changed_exit'), e.get('tests'))
-    print(os.path.basename(d), st, {k: ('CAUGHT' if c['exit'] == 1 else 'silent' if c['exit'] == 0 else 'INCONCLUSIVE') for k, c in e.get('checks', {}).items()})
+
+
+def load():
+    rows = []
+    for d in sorted(glob.glob(os.path.join(HERE, 'seeded', 'C*'))):
+        if not os.path.isdir(d):
+            continue
+        name = os.path.basename(d)
+        try:
+            meta = json.load(open(os.path.join(d, 'meta.json')))
+        except Exception:
+            meta = {}
+        try:
+            e = json.load(open(os.path.join(d, 'eval.json')))
+        except Exception:
+            e = None
+        rows.append((name, meta, e))
+    return rows
+
+
+def verdicts(e):
+    return {k: ('CAUGHT' if c['exit'] == 1 else 'silent' if c['exit'] == 0 else 'INCONCLUSIVE') for k, c in e.get('checks', {}).items()}
+
+
+def valid(e):
+    return bool(e) and e.get('demo_clean_exit') == 0 and e.get('demo_changed_exit') not in (0, None) and e.get('tests_ok')
+
+
+def main():
+    rows = load()
+    if '--md' not in sys.argv:
+        for name, meta, e in rows:
+            if e is None:
+                print(name, '(no evaluation)')
+                continue
+            st = 'valid' if valid(e) else 'INVALID(applies=%s clean=%s changed=%s tests=%s)' % (
+                e.get('patch_applies'), e.get('demo_clean_exit'), e.get('demo_changed_exit'), e.get('tests'))
+            print(name, st, verdicts(e))
+        return
+    out = ['# Seeded changes', '',
+           'Each directory: `patch.diff` (applies to /repo HEAD with `git apply` / `patch -p1`), `demo.py` (exit 0 on the clean tree, 1 with the change),',
+           '`meta.json` (the author\'s description), `eval.json` (written by `tools/seedeval.py`: demo on the clean tree, demo with the change,',
+           'test suite with the change, and the quick tier of the named checks against the changed copy).', '',
+           '| seed | breaks | mechanism | needs | confirmed (clean demo / changed demo / suite) | checks (quick tier) |', '|---|---|---|---|---|---|']
+    ncaught = nvalid = 0
+    for name, meta, e in rows:
+        if e is None:
+            continue
+        v = verdicts(e)
+        ok = valid(e)
+        nvalid += ok
+        caught = any(x == 'CAUGHT' for x in v.values())
+        ncaught += (ok and caught)
+        cell = ', '.join('%s: **%s**' % (k, x) if x == 'CAUGHT' else '%s: %s' % (k, x) for k, x in v.items())
+        conf = '%s / %s / %s' % (e.get('demo_clean_exit'), e.get('demo_changed_exit'), (e.get('tests') or '').split(' in ')[0])
+        esc = lambda t: str(t or '').replace('|', '\\|').replace('\n', ' ')[:300]
+        out.append('| %s | %s | %s | %s | %s | %s |' % (name, meta.get('property', name[:3]), esc(meta.get('summary')), esc(meta.get('needs')), conf, cell))
+    out += ['', '%d of %d confirmed seeds raise an alarm in the quick tier of at least one check.' % (ncaught, nvalid), '']
+    with open(os.path.join(HERE, 'seeded', 'README.md'), 'w') as f:
+        f.write('\n'.join(out))
+    print('seeded/README.md: %d seeds, %d caught' % (nvalid, ncaught))
+
+
+if __name__ == '__main__':
+    main()
